@@ -1,5 +1,6 @@
 (* Entry point of the extracted model for property C18.
    cases: (1 scenario)                 a demux scenario whose reader starts failing at an offset (RunDemux.v)
+          (3 scenario cause)          the same; the reader's failure is an error that wraps io.EOF / io.ErrUnexpectedEOF
           (2 period ops failAt)        a muxer history whose io.Writer fails on its failAt-th Write call (0-based, counted
                                        over the whole history); the history is observed up to and including the failing call
    observation of (2): one entry per call (code n accepted): for the failing call code = the injected error,
@@ -21,6 +22,7 @@ Definition run_faulty (s : mstate) (ops : list mop) (k : Z) : list tok :=
 Definition run_C18 (t : tok) : tok :=
   match tI (tnth 0 t) with
   | 1 => run_demux full_parsers (tnth 1 t)
+  | 3 => run_demux full_parsers (tnth 1 t)   (* the failure wraps io.EOF / io.ErrUnexpectedEOF: not end of file either *)
   | 2 => TL (run_faulty (new_muxer (tI (tnth 1 t))) (map mop_of_tok (tL (tnth 2 t))) (tI (tnth 3 t)))
   | _ => TL []
   end.
